@@ -71,15 +71,15 @@ type vC11Write struct {
 }
 
 type vC11Frame struct {
-	serial  int32
-	id      string
-	st      *vC11Stream
-	ansPos  int // index of the reply-expecting request (as read by the remote on this stream) it answers
-	endOff  int64
-	seq     int64
-	vt      time.Time
-	garbage bool
-	undeliv bool
+	serial      int32
+	id          string
+	st          *vC11Stream
+	ansPos      int // index of the reply-expecting request (as read by the remote on this stream) it answers
+	endOff      int64
+	seq         int64
+	vt          time.Time
+	garbage     bool
+	undeliv     bool
 	consumedSeq int64
 }
 
@@ -92,17 +92,17 @@ type vC11Stream struct {
 	end *vsim.End
 
 	// guarded by hs.mu
-	openSeq     int64
-	clientReset int64 // seq of the first client Reset / Close (0: open)
-	closed      bool  // ended by Close rather than Reset
-	writes      []*vC11Write
-	nExpect     int
-	frames      []*vC11Frame
-	inEnd       int64 // bytes the remote wrote
-	consumed    int64 // bytes the client read
-	killed      bool
-	opener      string // id of the call whose context NewStream was given
-	readsByRemote int // reply-expecting requests read by the remote
+	openSeq       int64
+	clientReset   int64 // seq of the first client Reset / Close (0: open)
+	closed        bool  // ended by Close rather than Reset
+	writes        []*vC11Write
+	nExpect       int
+	frames        []*vC11Frame
+	inEnd         int64 // bytes the remote wrote
+	consumed      int64 // bytes the client read
+	killed        bool
+	opener        string // id of the call whose context NewStream was given
+	readsByRemote int    // reply-expecting requests read by the remote
 }
 
 type vC11Peer struct {
@@ -117,19 +117,20 @@ type vC11Peer struct {
 	disconnects int
 	maxOpen     int
 	orphaned    bool
+	opening     *vC11Stream // stream being registered by newStream (for orphanSig)
 }
 
 type vC11Call struct {
-	id       string
-	caller   int
-	p        *vC11Peer
-	message  bool // SendMessage
-	cancel   context.CancelFunc
-	ctxEnd   time.Time // when its ctx ended (cancel invoked by the harness or deadline), zero if never
+	id        string
+	caller    int
+	p         *vC11Peer
+	message   bool // SendMessage
+	cancel    context.CancelFunc
+	ctxEnd    time.Time // when its ctx ended (cancel invoked by the harness or deadline), zero if never
 	hasCtxEnd bool
-	startSeq int64
-	retSeq   int64
-	err      error
+	startSeq  int64
+	retSeq    int64
+	err       error
 }
 
 type vC11Harness struct {
@@ -142,17 +143,17 @@ type vC11Harness struct {
 	wg      sync.WaitGroup // remote goroutines
 	discCtx context.Context
 
-	mu      sync.Mutex
-	seq     int64
-	serial  int32
-	peers   map[peer.ID]*vC11Peer
-	order   []*vC11Peer
-	calls   map[string]*vC11Call
-	frames  map[int32]*vC11Frame
-	byID    map[string][]*vC11Write
-	trace   []string
-	onRead  func(id string) // called (outside the lock) when the remote has read a request
-	sig     string          // signature override for the stream-discipline clauses (forced schedules)
+	mu     sync.Mutex
+	seq    int64
+	serial int32
+	peers  map[peer.ID]*vC11Peer
+	order  []*vC11Peer
+	calls  map[string]*vC11Call
+	frames map[int32]*vC11Frame
+	byID   map[string][]*vC11Write
+	trace  []string
+	onRead func(id string) // called (outside the lock) when the remote has read a request
+	sig    string          // signature override for the stream-discipline clauses (forced schedules)
 }
 
 // orphanSig recognises the known defect "sender orphaned by its cancelled creator" behind a
@@ -163,7 +164,11 @@ func (hs *vC11Harness) orphanSig(p *vC11Peer) string {
 	if p.orphaned {
 		return "orphaned-sender" // two sender generations coexist from the first orphaning on: consequences
 	}
-	for _, o := range p.streams {
+	cand := p.streams
+	if p.opening != nil {
+		cand = append(append([]*vC11Stream(nil), cand...), p.opening) // the orphan's stream may be the one being opened
+	}
+	for _, o := range cand {
 		if o.clientReset != 0 {
 			continue
 		}
@@ -172,8 +177,13 @@ func (hs *vC11Harness) orphanSig(p *vC11Peer) string {
 			openerStart = oc.startSeq
 		}
 		for _, x := range hs.calls {
-			if x.p == p && x.retSeq != 0 && len(hs.byID[x.id]) == 0 && x.retSeq > openerStart && x.startSeq < o.openSeq &&
-				(errors.Is(x.err, context.Canceled) || errors.Is(x.err, context.DeadlineExceeded)) {
+			if x.p != p || len(hs.byID[x.id]) != 0 || x.startSeq >= o.openSeq {
+				continue
+			}
+			returnedCancelled := x.retSeq > openerStart && (errors.Is(x.err, context.Canceled) || errors.Is(x.err, context.DeadlineExceeded))
+			// the harness may see the return of the cancelled creator only later
+			inFlightCancelled := x.retSeq == 0 && x.hasCtxEnd && !time.Now().Before(x.ctxEnd)
+			if returnedCancelled || inFlightCancelled {
 				p.orphaned = true
 				return "orphaned-sender"
 			}
@@ -420,7 +430,9 @@ func (hs *vC11Harness) newStream(ctx context.Context, p peer.ID, protos []protoc
 	}
 	// every stream of an earlier sender generation may still be open; within one generation a
 	// new stream is opened only after the previous one was reset or closed
+	vp.opening = st
 	hs.checkP(open <= vp.disconnects, "one-open-stream", vp, "NewStream(%s) while %d outbound stream(s) to it are still open (%v) and only %d OnDisconnect call(s) were made", vp.name, open, names, vp.disconnects)
+	vp.opening = nil
 	if open+1 > vp.maxOpen {
 		vp.maxOpen = open + 1
 	}
@@ -1029,7 +1041,6 @@ func (hs *vC11Harness) driveForced(sc vC11Scenario) {
 // judgeReturn evaluates the per-call clauses at the instant the call returned.
 func (hs *vC11Harness) judgeReturn(cl *vC11Call, resp *pb.Message, err error) {
 	c := hs.c
-	now := time.Now()
 	hs.mu.Lock()
 	defer hs.mu.Unlock()
 	hs.seq++
@@ -1081,7 +1092,6 @@ func (hs *vC11Harness) judgeReturn(cl *vC11Call, resp *pb.Message, err error) {
 			c.Check(w.st.clientReset != 0 && !w.st.closed, "failed-exchange-resets-stream", "call %s returned (err=%v): its transmission #%d on %s failed (write error=%v) but the sender has not reset that stream", cl.id, err, w.seq, w.st.name(), w.failed)
 		}
 	}
-	_ = now
 }
 
 func vC11WriteNames(ws []*vC11Write) string {
@@ -1096,7 +1106,7 @@ var vC11Clauses = []string{"own-reply", "reply-from-carrying-transmission", "exc
 
 func TestVerif_C11_bubble(t *testing.T) {
 	vh.Run(t, vh.Spec{Prop: "C11", Unit: "bubble", Quick: 3000, Thorough: 150000, CostMs: 4, WallS: 60,
-		Rule: "virtual time, real 10 s read timeout: 1-8 callers x 1-3 peers x 1-5 calls each (SendRequest of 5 types, 20% SendMessage/ADD_PROVIDER), think times 0-3 s; per-peer remote script over the requests it reads (fault share 0/20/50%): prompt, delayed 1-9 s, delayed 10 s +/- 1 ms (boundary), delayed 11-25 s, silent, reset after reading, close, non-protobuf frame, over-long length prefix, truncated frame (+ silence or EOF); per-stream script: refused, slowly refused, slow, reset on open; contexts: none / pre-cancelled / deadline in {1 ms, 5 s, 10 s -/+ 1 ms, 15 s, 20 s} / cancelled at {0, 3.3 s, 10 s, 10 s + 1 ms, 20 s + 1 ms, PRNG}; boundary hooks cancel the caller or call OnDisconnect when the remote has read the request / written the reply; OnDisconnect timers; 1 case in 6 is a burst (4-8 callers start at once without think time, 30% pre-cancelled contexts); oracle on ids + frame serials + logging stream; non-trivial = >= 2 callers, >= 1 successful request and (>= 1 stream reset by the sender or >= 1 OnDisconnect); distinct by (per-call transmissions and outcome, per-stream writes/frames)",
+		Rule:    "virtual time, real 10 s read timeout: 1-8 callers x 1-3 peers x 1-5 calls each (SendRequest of 5 types, 20% SendMessage/ADD_PROVIDER), think times 0-3 s; per-peer remote script over the requests it reads (fault share 0/20/50%): prompt, delayed 1-9 s, delayed 10 s +/- 1 ms (boundary), delayed 11-25 s, silent, reset after reading, close, non-protobuf frame, over-long length prefix, truncated frame (+ silence or EOF); per-stream script: refused, slowly refused, slow, reset on open; contexts: none / pre-cancelled / deadline in {1 ms, 5 s, 10 s -/+ 1 ms, 15 s, 20 s} / cancelled at {0, 3.3 s, 10 s, 10 s + 1 ms, 20 s + 1 ms, PRNG}; boundary hooks cancel the caller or call OnDisconnect when the remote has read the request / written the reply; OnDisconnect timers; 1 case in 6 is a burst (4-8 callers start at once without think time, 30% pre-cancelled contexts); oracle on ids + frame serials + logging stream; non-trivial = >= 2 callers, >= 1 successful request and (>= 1 stream reset by the sender or >= 1 OnDisconnect); distinct by (per-call transmissions and outcome, per-stream writes/frames)",
 		Clauses: append([]string{"late-reply-not-returned"}, vC11Clauses...)},
 		func(c *vh.Case) {
 			sc := vC11GenScenario(c, true, 10*time.Second)
@@ -1111,7 +1121,7 @@ func TestVerifRace_C11_twin(t *testing.T) {
 	dhtReadMessageTimeout = 60 * time.Millisecond
 	defer func() { dhtReadMessageTimeout = old }()
 	vh.Run(t, vh.Spec{Prop: "C11", Unit: "twin", Quick: 400, Thorough: 16000, CostMs: 60, WallS: 120,
-		Rule: "real time, -race build, read timeout shrunk to 60 ms: same scenario generator as `bubble` with the time unit scaled (delays below = 6-54 ms, above = 180-240 ms, at most 3 timeout-class reactions per peer); no stream is broken by the harness, so a stream reused after a failed exchange delivers its late frame to the next exchange; verdict uses only ids, frame serials and the order of logged events, never durations; non-trivial as `bubble`",
+		Rule:    "real time, -race build, read timeout shrunk to 60 ms: same scenario generator as `bubble` with the time unit scaled (delays below = 6-54 ms, above = 180-240 ms, at most 3 timeout-class reactions per peer); no stream is broken by the harness, so a stream reused after a failed exchange delivers its late frame to the next exchange; verdict uses only ids, frame serials and the order of logged events, never durations; non-trivial as `bubble`",
 		Clauses: vC11Clauses},
 		func(c *vh.Case) {
 			sc := vC11GenScenario(c, false, dhtReadMessageTimeout)
@@ -1123,7 +1133,7 @@ func TestVerifRace_C11_twin(t *testing.T) {
 // caller first waits for the per-peer lock.
 func TestVerif_C11_forced(t *testing.T) {
 	vh.Run(t, vh.Spec{Prop: "C11", Unit: "forced", Quick: 300, Thorough: 6000, CostMs: 4, WallS: 60,
-		Rule: "virtual time; forced interleaving on one peer: caller A (SendRequest, 25% SendMessage) passes a context that ends the first time it is consulted, i.e. exactly when A starts waiting for the per-peer lock; at that instant caller B is started and A's context ends once the remote has read B's request (B holds the lock, its reply is delayed 1-9 s); A is either the caller that creates the peer's sender (fresh peer, 2/3) or arrives at an existing one; then 1-4 later callers (sequential with 0-12 s think time, or concurrent), optional OnDisconnect at the end; remote answers promptly or with 0-2 s delay; same oracle as `bubble`; every case is non-trivial, distinct by (variant, delays, later callers, per-stream writes)",
+		Rule:    "virtual time; forced interleaving on one peer: caller A (SendRequest, 25% SendMessage) passes a context that ends the first time it is consulted, i.e. exactly when A starts waiting for the per-peer lock; at that instant caller B is started and A's context ends once the remote has read B's request (B holds the lock, its reply is delayed 1-9 s); A is either the caller that creates the peer's sender (fresh peer, 2/3) or arrives at an existing one; then 1-4 later callers (sequential with 0-12 s think time, or concurrent), optional OnDisconnect at the end; remote answers promptly or with 0-2 s delay; same oracle as `bubble`; every case is non-trivial, distinct by (variant, delays, later callers, per-stream writes)",
 		Clauses: []string{"own-reply", "reply-from-carrying-transmission", "exchanges-serialized", "one-open-stream", "no-write-after-reset"}},
 		func(c *vh.Case) {
 			r := c.R
